@@ -564,6 +564,49 @@ def verifyDoc (k : Key) (rdoc : RDoc) (play : Play) : Except Err Unit :=
   | .play r => verifyK H sigDecodes sigValid hashOf k r play
 end Glue
 
+/-! ### the int -> str digit limit (Python >= 3.11: `str(n)` raises ValueError for |n| >= 10**4300) -/
+
+/-- `sys.get_int_max_str_digits()` = 4300: `str(n)` is refused when `n` has more than 4300 decimal digits.
+`intStr` above is total (defined for every integer); the implementation is not: the guard is stated here. -/
+def intLimit : Nat := 10 ^ 4300
+
+def scalarRefused : Scalar → Bool
+  | .int n => decide (intLimit ≤ n.natAbs)
+  | _ => false
+
+mutual
+/-- does serialising the value reach an integer (as value, sequence item, mapping key or mapping value, at any depth) that `str()` refuses -/
+def refused : PVal → Bool
+  | .sc s => scalarRefused s
+  | .seq xs => refusedL xs
+  | .map kvs => refusedP kvs
+def refusedL : List PVal → Bool
+  | [] => false
+  | x :: r => refused x || refusedL r
+def refusedP : List (Scalar × PVal) → Bool
+  | [] => false
+  | (k, v) :: r => scalarRefused k || refused v || refusedP r
+end
+
+/-- `PlaybookSerializer.serialize` as it behaves: `none` = ValueError, no text -/
+def serG (v : PVal) : Option Str := if refused v then none else some (ser v)
+
+/-- `verify_play` up to the digest with the guard: the integers of the CLEANED play are what is serialised
+(one inside an excluded element is never printed); the ValueError is not caught anywhere: `crash`, no digest -/
+def verifyPlayG (play : Play) : Except Err (Str × PVal) :=
+  match verifyPlay play with
+  | .error e => .error e
+  | .ok (text, sig) =>
+    match exclude play with
+    | .ok cleaned => if refused (.map cleaned) then .error .crash else .ok (text, sig)
+    | .error e => .error e
+
+/-- exclude_dynamic_elements + serialize_play with the guard -/
+def excludeSerG (play : Play) : Except Err Str :=
+  match exclude play with
+  | .ok cleaned => if refused (.map cleaned) then .error .crash else .ok (serializePlay cleaned)
+  | .error e => .error e
+
 /-- how `python -m …playbook_verifier` ends: exit 0, exit `sig_kill_bad` with the error's message, or a traceback -/
 inductive Exit where
   | ok
